@@ -132,6 +132,12 @@ func runC13(c *Ctx) {
 		}
 		gcsCall(c, keys[1], pm[0], uint64(pm[1]), items, [][][]byte{mixed, items, gcsItems(c, 129, 0xC8)})
 	}
+	// a FRESH filter queried by several goroutines released together (first use of anything the filter builds lazily)
+	for round := 0; round < c.Pick(6, 30); round++ {
+		items := gcsItems(c, []int{3000, 20000, 60000}[round%3], 0x24)
+		q := append(gcsItems(c, 4, 0x98), items[3], items[len(items)-1])
+		c.Call(Event{"op": "GcsConc", "items": bytesList(items), "q": bytesList(q), "k": []int{8, 16}[round%2], "malformed": false, "reused": false, "hashfirst": round%3 != 0})
+	}
 	// planner: non-members whose reduced value equals a member's modulo 2^32 but not exactly
 	{
 		n := 12000
